@@ -335,6 +335,8 @@ def temporary_entry_released(fn):
     locals_ = {n.id for n in _own_nodes(fn) if isinstance(n, ast.Name) and
                isinstance(n.ctx, ast.Store)} | {a.arg for a in
                                                fn.args.args}
+    locals_ -= {nm for n in _own_nodes(fn) if isinstance(n, ast.Global)
+                for nm in n.names}
 
     def cont(e):
         # container expression that outlives the call
@@ -356,9 +358,16 @@ def temporary_entry_released(fn):
                 isinstance(st.targets[0], ast.Subscript):
             c = cont(st.targets[0].value)
             return (c, ast.dump(st.targets[0].slice)) if c else None
+        # a counter that outlives the call: `_depth += 1 ... _depth -= 1`
+        if isinstance(st, ast.AugAssign) and isinstance(st.op, ast.Add):
+            c = cont(st.target)
+            return (c, 'count:' + ast.dump(st.value)) if c else None
         return None
 
     def take(st):
+        if isinstance(st, ast.AugAssign) and isinstance(st.op, ast.Sub):
+            c = cont(st.target)
+            return (c, 'count:' + ast.dump(st.value)) if c else None
         if isinstance(st, ast.Expr) and isinstance(st.value, ast.Call) and \
                 isinstance(st.value.func, ast.Attribute) and \
                 st.value.func.attr in ('remove', 'discard', 'pop') and \
@@ -504,12 +513,55 @@ def none_sentinel_tested_by_truth(fn):
     return out
 
 
+def cycle_guard_released(fn):
+    """P10: a recursion guard - `if k in seen: raise ...; seen.add(k)` with
+    `seen` handed on to the recursive calls - must take k out again when the
+    call returns (or hand down `seen | {k}`).  A set that only grows records
+    everything VISITED, not what is on the current path: an object that is
+    merely reached twice (shared, not cyclic) is refused as a cycle."""
+    out = []
+    params = {a.arg for a in fn.args.args + fn.args.kwonlyargs}
+    nodes = list(_own_nodes(fn))
+    for s_ in sorted(params):
+        adds = [n for n in nodes if isinstance(n, ast.Call) and
+                isinstance(n.func, ast.Attribute) and
+                n.func.attr == 'add' and isinstance(n.func.value, ast.Name)
+                and n.func.value.id == s_ and len(n.args) == 1]
+        if not adds:
+            continue
+        guards = [n for n in nodes if isinstance(n, ast.If) and any(
+            isinstance(c, ast.Compare) and len(c.ops) == 1 and
+            isinstance(c.ops[0], ast.In) and
+            isinstance(c.comparators[0], ast.Name) and
+            c.comparators[0].id == s_ for c in ast.walk(n.test)) and any(
+            isinstance(x, ast.Raise) for st in n.body for x in ast.walk(st))]
+        recursive = [n for n in nodes if isinstance(n, ast.Call) and
+                     isinstance(n.func, ast.Name) and n.func.id == fn.name
+                     and any(isinstance(a, ast.Name) and a.id == s_
+                             for a in list(n.args) +
+                             [k.value for k in n.keywords])]
+        released = [n for n in nodes if isinstance(n, ast.Call) and
+                    isinstance(n.func, ast.Attribute) and
+                    n.func.attr in ('remove', 'discard', 'pop', 'clear') and
+                    isinstance(n.func.value, ast.Name) and
+                    n.func.value.id == s_]
+        if guards and recursive and not released:
+            out.append((adds[0].lineno, 'cycle-guard-released:%s' % s_,
+                        '%s() refuses an object found in `%s`, adds it, and '
+                        'hands `%s` to its recursive calls, but never takes '
+                        'it out again: the set holds everything visited, '
+                        'not the current path, so an object that is only '
+                        'referenced twice (no cycle) is refused'
+                        % (fn.name, s_, s_)))
+    return out
+
+
 def scan_function(fn, shared=()):
     return search_loop_variable(fn) + stale_snapshot(fn) + \
         one_object_two_names(fn) + \
         shallow_copy_of_shared_mutables(fn, shared) + shared_deferred(fn) + \
         temporary_entry_released(fn) + registered_before_complete(fn) + \
-        none_sentinel_tested_by_truth(fn)
+        none_sentinel_tested_by_truth(fn) + cycle_guard_released(fn)
 
 
 def pitfall_rules(ctx, pid):
@@ -591,6 +643,10 @@ def _control():
             'introspect_coalesced': {'shared-deferred'},
             'introspect_coalesced_direct': {'shared-deferred'},
             'guarded_work': {'temporary-entry-released'},
+            'counted_work': {'temporary-entry-released'},
+            'sig_of': {'cycle-guard-released'},
+            'sig_of_path': set(),
+            'counted_work_finally': set(),
             'first_value_by_truth': {'none-sentinel-tested-by-truth'},
             'first_value_by_identity': set(),
             '__init__': {'registered-before-complete'},
